@@ -4,6 +4,8 @@ import DSV.Cost.Validate
 import DSV.Lemmas.CostWire
 import DSV.Lemmas.CostDecimal
 import DSV.Lemmas.CostValidate
+import DSV.Cost.Errors
+import DSV.Lemmas.CostErrors
 /-!
 # C19 — work per round is bounded by input size, even for adversarial values  (*partial*)
 
@@ -102,6 +104,33 @@ theorem validate_cost_quadratic_without_limit (d : Nat) (h : 36 + 24 * (d + 1) <
     have hp := parseSVInto_wrapSV (nestBytes d) (by omega)
     simp only [validateCost, singleEntry, List.map_cons, List.map_nil, List.sum_cons, List.sum_nil, entryCost, hp]
     omega
+
+/-! ## errors joined in a loop and then formatted (K6) -/
+
+/-- **Joined once** (the repaired `VerifyChannelDefinitions`): formatting costs exactly the total
+    text plus one separator per error — at most `(M+1)·n` for `n` errors of at most `M` bytes. -/
+theorem verify_error_cost_linear (M : Nat) (ls : List Nat) (h : ∀ l ∈ ls, l ≤ M) :
+    formatOnce ls = ls.sum + ls.length ∧ formatOnce ls ≤ (M + 1) * ls.length :=
+  ⟨formatOnce_eq ls, formatOnce_le M ls h⟩
+
+/-- **Joined one by one** (the old shape, and `buildPayload` of the EVM codec): `n` errors, however
+    short, cost at least `n²/2` — every level re-copies the text of all earlier levels. -/
+theorem verify_error_cost_quadratic_nested_witness (n l : Nat) :
+    n * n ≤ 2 * formatNested (List.replicate n l) := by
+  have := nested_replicate l n 0 0
+  simp only [Nat.mul_zero, Nat.add_zero, Nat.zero_add] at this
+  exact this
+
+/-- the two shapes produce the same text; only the cost differs: for `n ≥ 2·(M+1)` errors of `M`
+    bytes the nested shape is strictly more expensive -/
+theorem nested_dearer_than_once (n M : Nat) (h : 2 * (M + 1) < n) :
+    formatOnce (List.replicate n M) < formatNested (List.replicate n M) := by
+  have h1 := (verify_error_cost_linear M (List.replicate n M) (by intro l hl; rw [List.eq_of_mem_replicate hl]; omega)).2
+  have h2 := verify_error_cost_quadratic_nested_witness n M
+  rw [List.length_replicate] at h1
+  have h3 : 2 * ((M + 1) * n) < n * n := by
+    rw [← Nat.mul_assoc]; exact Nat.mul_lt_mul_of_pos_right h (by omega)
+  omega
 
 /-! ## decimal comparison and conversion -/
 
